@@ -226,14 +226,16 @@ def _table_pieces():
     return FN, node, filename, loop, node.body[:k], node.body[k + 1:]
 
 
-def _table_inputs(it, H_=None):
+def _table_inputs(it, H_=None, sample_dtype="int64"):
     from pyvc import interp as I
     from pyvc import models as M
     nsp, ns, max_wf, trough, L = z3.Ints("nspikes ns max_wf trough_offset spike_length")
     it.ctx.assume(z3.And(nsp >= 1, ns >= 1, max_wf >= 1, trough >= 0, L >= 1, trough < L))
     if H_ is not None:
         H_.input(nspikes=nsp, ns=ns, max_wf=max_wf, trough_offset=trough, spike_length=L)
-    samples = A.fresh_array("spike_samples", "int64", (nsp,), ranged=False)
+    samples = A.fresh_array("spike_samples", sample_dtype, (nsp,), ranged=False)
+    if sample_dtype == "uint64":
+        A.assume_range(samples, 0, 2 ** 62)            # spike times as saved by the sorters (unsigned): non negative, far below 2^63
     clusters = A.fresh_array("spike_clusters", "int64", (nsp,), ranged=False)
     channels = A.fresh_array("spike_channels", "int64", (nsp,), ranged=False)
 
@@ -298,12 +300,15 @@ def native_table(rng, ncases, max_wf=None, trough=None, L=None):
                 smp, clu = smp[sel], clu[sel]
                 nsp = smp.size
         chn = rng.integers(0, 384, nsp).astype(np.int64)
+        if t % 4 == 1:
+            smp = smp.astype(np.uint64)            # spike times as the sorters save them
         try:
             tab, units = WE._make_wfs_table(sr, smp, clu, chn, max_wf=mw, trough_offset=tr, spike_length_samples=ln, seed=int(rng.integers(0, 1 << 30)))
         except Exception as e:
             bad.append(("raised", repr(e)[:120], dict(ns=ns, max_wf=mw, trough=tr, L=ln)))
             continue
-        key = dict(ns=ns, max_wf=mw, trough=tr, L=ln, nspikes=int(nsp))
+        key = dict(ns=ns, max_wf=mw, trough=tr, L=ln, nspikes=int(nsp), dtype=str(smp.dtype))
+        smp = smp.astype(np.int64)
         valid = (smp > tr) & (smp < hi)
         if not np.array_equal(np.asarray(units), np.unique(clu)):
             bad.append(("unit_ids", key))
@@ -348,51 +353,53 @@ def replay_table(vals, oid):
 def h_table(H):
     from pyvc import interp as I
 
-    # ---- one symbolic iteration of the per-unit loop (state before it: rows of later units still hold the padding value)
-    S = H.session("table.iteration")
+    # ---- one symbolic iteration of the per-unit loop (state before it: rows of later units still hold the padding value);
+    #      spike times signed (int64) and unsigned (uint64, as the sorters save them: arithmetic on them wraps at 0)
+    for sdt in ("int64", "uint64"):
+        S = H.session(f"table.iteration.{sdt}")
 
-    def body(it):
-        P = _table_inputs(it, H)
-        env, uq, loop = P["env"], P["uq"], P["loop"]
-        nu, nsp, max_wf = uq["m"], P["nsp"], P["max_wf"]
-        U = _table_var(env, "unit_wf_idx", "the per-unit index table")
-        r, c, c2, p_ = z3.Ints("r c c2 p")
-        it.ctx.oblige("table.init.shape", z3.And(z3.BoolVal(U.ndim == 2), A.T(U.shape[0]) == nu, A.T(U.shape[1]) == max_wf), "post", "one row per unit, max_wf slots")
-        it.ctx.oblige("table.init.padding", A.forall([r, c], lambda: z3.Implies(z3.And(r >= 0, r < nu, c >= 0, c < max_wf), U.read((r, c)) < 0)), "post",
-                      "before the loop every slot holds a value that is not a spike index")
-        i = z3.Int("i_unit")
-        it.ctx.assume(z3.And(i >= 0, i < nu))
-        # loop state at iteration i: rows of earlier units are arbitrary (havoc), rows i.. still hold the padding
-        pad = U.read((i, z3.IntVal(0)))
-        U0 = A.fresh_array("unit_wf_idx_at_i", "int64", (nu, max_wf), ranged=False)
-        it.ctx.assume(z3.ForAll([r, c], z3.Implies(z3.And(r >= i, r < nu, c >= 0, c < max_wf), U0.uf(r, c) == -1), patterns=[U0.uf(r, c)]))
-        env.vars["unit_wf_idx"] = U0
-        u0 = U0.snapshot()
-        nw0 = len([q for q in it.ctx.where_log if q["ndim"] == 1])
-        it.assign(loop.target, (SV(i), wrap_elem(uq, i)), env)
-        it.exec_block(list(loop.body), env)
-        U1 = env.vars["unit_wf_idx"]
-        w = [q for q in it.ctx.where_log if q["ndim"] == 1][nw0:]
-        rng = getattr(it.ctx, "rng_log", [])
-        if len(w) != 1 or len(rng) != 1 or len(rng[0].draws) != 1:
-            raise I.Unsupported("cannot identify the selection of one unit's valid spikes / the random draw in the loop of _make_wfs_table()")
-        w, draw = w[0], rng[0].draws[0]
-        sm, cl = P["samples"], P["clusters"]
-        uid = uq["values"](i)
-        valid = lambda q: z3.And(cl.read((q,)) == uid, sm.read((q,)) > P["trough"], sm.read((q,)) < P["ns"] - (P["L"] - P["trough"]))    # noqa
-        it.ctx.oblige("table.valid_spikes_of_unit", A.forall([p_], lambda: z3.Implies(z3.And(p_ >= 0, p_ < nsp), w["mask"]((p_,)) == valid(p_))), "post",
-                      "the candidates of unit i are exactly its spikes lying farther than the window margins from both ends of the recording")
-        cnt = w["count"]
-        kk = z3.If(max_wf <= cnt, max_wf, cnt)
-        it.ctx.oblige("table.draw_size", z3.And(draw["k"] == kk, draw["n"] == cnt), "post", "min(max_wf, number of valid spikes) spikes are drawn from the candidates, without replacement")
-        it.ctx.oblige("table.row.selected_valid_distinct", z3.And(
-            A.forall([c], lambda: z3.Implies(z3.And(c >= 0, c < kk), z3.And(U1.read((i, c)) >= 0, U1.read((i, c)) < nsp, valid(U1.read((i, c)))))),
-            A.forall([c, c2], lambda: z3.Implies(z3.And(c >= 0, c < c2, c2 < kk), U1.read((i, c)) != U1.read((i, c2))))), "post",
-            "the first min(max_wf, nvalid) slots of row i hold pairwise distinct valid spikes of unit i", assume=False)
-        it.ctx.oblige("table.row.padding_after", A.forall([c], lambda: z3.Implies(z3.And(c >= kk, c < max_wf), U1.read((i, c)) == -1)), "post", "the remaining slots keep the padding value", assume=False)
-        it.ctx.oblige("table.row.frame", A.forall([r, c], lambda: z3.Implies(z3.And(r >= 0, r < nu, r != i, c >= 0, c < max_wf), U1.read((r, c)) == u0((r, c)))), "post",
-                      "iteration i writes row i only", assume=False)
-    S.explore(body)
+        def body(it, sdt=sdt):
+            P = _table_inputs(it, H, sdt)
+            env, uq, loop = P["env"], P["uq"], P["loop"]
+            nu, nsp, max_wf = uq["m"], P["nsp"], P["max_wf"]
+            U = _table_var(env, "unit_wf_idx", "the per-unit index table")
+            r, c, c2, p_ = z3.Ints("r c c2 p")
+            it.ctx.oblige("table.init.shape", z3.And(z3.BoolVal(U.ndim == 2), A.T(U.shape[0]) == nu, A.T(U.shape[1]) == max_wf), "post", "one row per unit, max_wf slots")
+            it.ctx.oblige("table.init.padding", A.forall([r, c], lambda: z3.Implies(z3.And(r >= 0, r < nu, c >= 0, c < max_wf), U.read((r, c)) < 0)), "post",
+                          "before the loop every slot holds a value that is not a spike index")
+            i = z3.Int("i_unit")
+            it.ctx.assume(z3.And(i >= 0, i < nu))
+            # loop state at iteration i: rows of earlier units are arbitrary (havoc), rows i.. still hold the padding
+            pad = U.read((i, z3.IntVal(0)))
+            U0 = A.fresh_array("unit_wf_idx_at_i", "int64", (nu, max_wf), ranged=False)
+            it.ctx.assume(z3.ForAll([r, c], z3.Implies(z3.And(r >= i, r < nu, c >= 0, c < max_wf), U0.uf(r, c) == -1), patterns=[U0.uf(r, c)]))
+            env.vars["unit_wf_idx"] = U0
+            u0 = U0.snapshot()
+            nw0 = len([q for q in it.ctx.where_log if q["ndim"] == 1])
+            it.assign(loop.target, (SV(i), wrap_elem(uq, i)), env)
+            it.exec_block(list(loop.body), env)
+            U1 = env.vars["unit_wf_idx"]
+            w = [q for q in it.ctx.where_log if q["ndim"] == 1][nw0:]
+            rng = getattr(it.ctx, "rng_log", [])
+            if len(w) != 1 or len(rng) != 1 or len(rng[0].draws) != 1:
+                raise I.Unsupported("cannot identify the selection of one unit's valid spikes / the random draw in the loop of _make_wfs_table()")
+            w, draw = w[0], rng[0].draws[0]
+            sm, cl = P["samples"], P["clusters"]
+            uid = uq["values"](i)
+            valid = lambda q: z3.And(cl.read((q,)) == uid, sm.read((q,)) > P["trough"], sm.read((q,)) < P["ns"] - (P["L"] - P["trough"]))    # noqa
+            it.ctx.oblige("table.valid_spikes_of_unit", A.forall([p_], lambda: z3.Implies(z3.And(p_ >= 0, p_ < nsp), w["mask"]((p_,)) == valid(p_))), "post",
+                          "the candidates of unit i are exactly its spikes lying farther than the window margins from both ends of the recording")
+            cnt = w["count"]
+            kk = z3.If(max_wf <= cnt, max_wf, cnt)
+            it.ctx.oblige("table.draw_size", z3.And(draw["k"] == kk, draw["n"] == cnt), "post", "min(max_wf, number of valid spikes) spikes are drawn from the candidates, without replacement")
+            it.ctx.oblige("table.row.selected_valid_distinct", z3.And(
+                A.forall([c], lambda: z3.Implies(z3.And(c >= 0, c < kk), z3.And(U1.read((i, c)) >= 0, U1.read((i, c)) < nsp, valid(U1.read((i, c)))))),
+                A.forall([c, c2], lambda: z3.Implies(z3.And(c >= 0, c < c2, c2 < kk), U1.read((i, c)) != U1.read((i, c2))))), "post",
+                "the first min(max_wf, nvalid) slots of row i hold pairwise distinct valid spikes of unit i", assume=False)
+            it.ctx.oblige("table.row.padding_after", A.forall([c], lambda: z3.Implies(z3.And(c >= kk, c < max_wf), U1.read((i, c)) == -1)), "post", "the remaining slots keep the padding value", assume=False)
+            it.ctx.oblige("table.row.frame", A.forall([r, c], lambda: z3.Implies(z3.And(r >= 0, r < nu, r != i, c >= 0, c < max_wf), U1.read((r, c)) == u0((r, c)))), "post",
+                          "iteration i writes row i only", assume=False)
+        S.explore(body)
 
     # ---- the code after the loop, from the loop's post-state (every row as established by the iteration obligations)
     S2 = H.session("table.tail")
@@ -577,6 +584,16 @@ def native_e2e(rng, ns, chunk, jobs, sizes, max_wf, seed, tail_spikes=False):
                 w2, info2, _ = wl.load_waveforms(labels=[cl], indices=sorted(set(pick)))
                 if not np.array_equal(w2, traces[rows_cl[sorted(set(pick))]], equal_nan=True):
                     bad.append(("loader with indices", cl, sorted(set(pick)), np.shape(w2)))
+                # indices running up to max_wf (past the size of a small unit, incl. exactly its count): the unit's own rows only
+                for ind in (np.arange(max_wf), np.array([len(rows_cl)]), np.array([0, len(rows_cl), len(rows_cl) + 1])):
+                    try:
+                        w3, info3, ch3 = wl.load_waveforms(labels=[cl], indices=ind)
+                    except Exception as e:
+                        bad.append(("loader with indices raised", cl, ind[:5].tolist(), repr(e)[:80]))
+                        continue
+                    keep = rows_cl[[j for j in range(len(rows_cl)) if j in set(ind.tolist())]]
+                    if not (np.array_equal(w3, traces[keep], equal_nan=True) and np.array_equal(info3["cluster"].to_numpy(), tab["cluster"].to_numpy()[keep]) and np.array_equal(ch3, chans[keep])):
+                        bad.append(("loader with indices beyond the unit size", cl, ind[:5].tolist(), np.shape(w3), len(keep)))
         return bad, (tab[["sample", "cluster", "peak_channel"]].to_numpy().copy(), traces.copy())
     finally:
         shutil.rmtree(d, ignore_errors=True)
